@@ -90,6 +90,14 @@ func (g *c20g) addr(l string) string {
 	}
 }
 
+// vestingSender: the sender of a split / move is the world's vesting account half of the time.
+func (g *c20g) vestingSender(l string) string {
+	if rapid.Bool().Draw(g.t, l+"_vesting") {
+		return g.vacc.String()
+	}
+	return g.addr(l)
+}
+
 func (g *c20g) intv(l string) sdk.Int {
 	t := g.t
 	switch rapid.IntRange(0, 8).Draw(t, l+"_int") {
@@ -225,7 +233,19 @@ func (g *c20g) authority(l string) string {
 // msg draws one message of the custom modules.
 func (g *c20g) msg() (sdk.Msg, bool) {
 	t := g.t
-	switch rapid.IntRange(0, 16).Draw(t, "msgType") {
+	switch rapid.IntRange(0, 17).Draw(t, "msgType") {
+	case 17:
+		// an entirely ordinary split / move out of the world's vesting account to a fresh address - the unusual
+		// part is the state (delegations, position in the schedule), not the message
+		to := g.v.NextFresh().String()
+		switch rapid.IntRange(0, 2).Draw(t, "ordinary") {
+		case 0:
+			return &vestingtypes.MsgSplitVesting{FromAddress: g.vacc.String(), ToAddress: to, Amount: sdk.NewCoins(sdk.NewInt64Coin(Denom, int64(rapid.IntRange(1, 100000).Draw(t, "ordinaryAmt"))))}, false
+		case 1:
+			return &vestingtypes.MsgMoveAvailableVesting{FromAddress: g.vacc.String(), ToAddress: to}, false
+		default:
+			return &vestingtypes.MsgMoveAvailableVestingByDenoms{FromAddress: g.vacc.String(), ToAddress: to, Denoms: []string{Denom}}, false
+		}
 	case 0:
 		return &vestingtypes.MsgCreateVestingPool{Owner: g.addr("o"), Name: g.str("n", "p0"), Amount: g.intv("a"),
 			Duration: time.Duration([]int64{0, -1, 1, secNs, 1<<63 - 1}[rapid.IntRange(0, 4).Draw(t, "dur")]), VestingType: g.str("vt", "vt0", "gone")}, false
@@ -237,9 +257,9 @@ func (g *c20g) msg() (sdk.Msg, bool) {
 	case 3:
 		return &vestingtypes.MsgSendToVestingAccount{Owner: g.addr("o"), ToAddress: g.addr("to"), VestingPoolName: g.str("p", "p0", "orphan"), Amount: g.intv("a"), RestartVesting: rapid.Bool().Draw(t, "rs")}, false
 	case 4:
-		return &vestingtypes.MsgSplitVesting{FromAddress: g.addr("f"), ToAddress: g.addr("to"), Amount: g.coins("c")}, false
+		return &vestingtypes.MsgSplitVesting{FromAddress: g.vestingSender("f"), ToAddress: g.addr("to"), Amount: g.coins("c")}, false
 	case 5:
-		return &vestingtypes.MsgMoveAvailableVesting{FromAddress: g.addr("f"), ToAddress: g.addr("to")}, false
+		return &vestingtypes.MsgMoveAvailableVesting{FromAddress: g.vestingSender("f"), ToAddress: g.addr("to")}, false
 	case 6:
 		var ds []string
 		switch rapid.IntRange(0, 5).Draw(t, "denoms") {
@@ -254,7 +274,7 @@ func (g *c20g) msg() (sdk.Msg, bool) {
 		default:
 			ds = []string{Denom}
 		}
-		return &vestingtypes.MsgMoveAvailableVestingByDenoms{FromAddress: g.addr("f"), ToAddress: g.addr("to"), Denoms: ds}, false
+		return &vestingtypes.MsgMoveAvailableVestingByDenoms{FromAddress: g.vestingSender("f"), ToAddress: g.addr("to"), Denoms: ds}, false
 	case 7:
 		return &vestingtypes.MsgUpdateDenomParam{Authority: g.authority("au"), Denom: g.str("d", "uatom")}, false
 	case 8, 9:
@@ -306,8 +326,16 @@ func TestC20Msgs(t *testing.T) {
 		g.vacc = v.NextFresh()
 		nowS := nsTime(v.NowNs).Unix()
 		makeCVA(v, g.vacc, sdk.NewCoins(sdk.NewInt64Coin(Denom, 100000)), nowS-10, nowS+1000, sdk.NewCoins(sdk.NewInt64Coin(Denom, 5)))
+		if rapid.Bool().Draw(t, "vestingDelegated") {
+			// the vesting account has delegated most of its vesting coins (x/staking keeps that figure on the account;
+			// later in the schedule less is still vesting than was delegated)
+			v.Delegate(g.vacc, sdk.NewInt(60000))
+		}
 		// state: with / without referenced objects
-		stateKind := rapid.IntRange(0, 5).Draw(t, "state")
+		stateKind := rapid.IntRange(0, 6).Draw(t, "state")
+		if stateKind == 6 {
+			v.Advance(int64(rapid.IntRange(1, 1200).Draw(t, "intoSchedule")) * secNs)
+		}
 		if stateKind == 4 {
 			// vesting denomination changed by governance (allowed while no pools exist) to whatever validation accepts
 			d := []string{"x", "1a", "a b", "uatom", strings.Repeat("d", 200), "uatom ", " uc4e", "uc4e\n", "\tuatom"}[rapid.IntRange(0, 8).Draw(t, "newDenom")]
